@@ -602,7 +602,31 @@ def r06_11(ctx):
                    'grad(u).dt(2) assemble the wrong operator', definite=True)
 
 
+def r06_12(ctx):
+    """Constant folding recognises the constants 0, 1, -1 EXACTLY.  ConstExpr.is_constant with an absolute tolerance
+    (|value - val| < 1e-15) makes every literal of magnitude below the tolerance "zero": 6.6e-34 * u * v * dx (a physical constant
+    in SI units) is folded to the zero form and assembles the zero matrix -- the rewriting does not preserve the integrand, and
+    whether it does depends on the units the user works in."""
+    f = ctx.prog.func(VF + '.ConstExpr.is_constant')
+    r = [x for x in guards.returns_of(f.node) if x.value is not None]
+    if not r:
+        ctx.undecided('R06.12', f.qual, 'comparison of the constant', f.node, 'no return value')
+        return
+    v = resolve.expand(r[-1].value, r[-1])
+    exact = isinstance(v, ast.Compare) and len(v.ops) == 1 and isinstance(v.ops[0], ast.Eq)
+    tol = isinstance(v, ast.Compare) and len(v.ops) == 1 and isinstance(v.ops[0], (ast.Lt, ast.LtE)) and \
+        any(isinstance(x, ast.Call) and (call_name(x) or '').split('.')[-1] in ('abs', 'fabs') for x in ast.walk(v.left)) and \
+        isinstance(v.comparators[0], ast.Constant)
+    rel = 'isclose' in src(v) or 'allclose' in src(v)
+    ctx.decide('R06.12', f.qual, src(r[-1])[:80], True if exact else (False if tol else None), r[-1],
+               'exact comparison' if exact else
+               'a constant counts as `val` when it is within the ABSOLUTE distance %s: every literal smaller than that is folded to zero '
+               '(1e-18 * u * v * dx and 6.6e-34 * u * v * dx assemble the zero matrix without any message)' % src(v.comparators[0]) if tol else
+               'tolerance test not recognised' if not rel else 'relative tolerance', definite=True)
+
+
 def run(ctx):
+    r06_12(ctx)
     r06_11(ctx)
     r06_10(ctx)
     r06_9(ctx)
